@@ -122,7 +122,8 @@ theorem live_only_reachable (sch : Schema) (hok : SchemaOk sch) (ops : List Op) 
     association whose two phrases are equal is NOT SchemaOk (example in Proofs/MetaShapes.lean) -/
 theorem shapes_are_schemaOk :
     SchemaOk shapeOneOne ∧ SchemaOk shapeOneMany ∧ SchemaOk shapeManyOneUncond ∧ SchemaOk shapeReflexive ∧
-    SchemaOk shapeAssocClass ∧ SchemaOk shapeSubsuper ∧ SchemaOk shapeSharedRef ∧ SchemaOk shapeTwoReflexive :=
+    SchemaOk shapeAssocClass ∧ SchemaOk shapeSubsuper ∧ SchemaOk shapeSharedRef ∧ SchemaOk shapeTwoReflexive ∧
+    SchemaOk shapePhrased ∧ SchemaOk shapeRefIdChain :=
   shapes_schemaOk
 
 /-- each referential attribute reads as the identifying attribute of the linked instance and as unset when
